@@ -30,7 +30,7 @@ theorem tie_initMerc (s : SR α) :
            (if s.sphere then Gen.merc_Merc_K0_2 s else Gen.merc_Merc_K0_3 s e)
          else if isNaN (Gen.merc_Merc_K0_1 s) then (if !(isNaN s.k) then Gen.merc_Merc_K0_4 s else Gen.merc_Merc_K0_5)
          else Gen.merc_Merc_K0_1 s
-       .ok ⟨s, k0⟩) := rfl
+       .ok ⟨s, e, k0⟩) := rfl
 
 theorem tie_fwdMerc (c : MercC α) (lon lat : α) :
     fwdMerc c lon lat =
@@ -39,7 +39,7 @@ theorem tie_fwdMerc (c : MercC α) (lon lat : α) :
        else if le (abs (abs lat - halfPi)) epsln then .error .mercPole
        else if s.sphere then .ok (Gen.merc_forward_x_1 s c.k0 lon, Gen.merc_forward_y_1 s c.k0 lat)
        else .ok (Gen.merc_forward_x_2 s c.k0 lon,
-                 Gen.merc_forward_y_2 s c.k0 (Gen.merc_forward_ts_1 s lat (Gen.merc_forward_sinphi_1 lat)))) := rfl
+                 Gen.merc_forward_y_2 s c.k0 (Gen.merc_forward_ts_1 c.e lat (Gen.merc_forward_sinphi_1 lat)))) := rfl
 
 theorem tie_invMerc (c : MercC α) (x y : α) :
     invMerc c x y =
@@ -48,7 +48,7 @@ theorem tie_invMerc (c : MercC α) (x y : α) :
         let x := Gen.merc_inverse_x_1 s x
         let y := Gen.merc_inverse_y_1 s y
         let lat ← if s.sphere then pure (Gen.merc_inverse_lat_1 s y c.k0)
-                  else phi2z s.e (Gen.merc_inverse_ts_1 s y c.k0)
+                  else phi2z c.e (Gen.merc_inverse_ts_1 s y c.k0)
         pure (Gen.merc_inverse_lon_1 s x c.k0, lat)) := rfl
 
 /-! ## lcc.go -/
